@@ -27,7 +27,8 @@ S == INSTANCE Symtab WITH Plans <- {}, rows <- srows, ctx <- sctx, dev <- sdev, 
 (* ------------------------------------------------------------------------------------------------ *)
 (* KNOWN-FINDING PREDICATES (to be moved to KnownFindings.tla; FALSE = not listed, i.e. a violation). *)
 KF_C17_walk_stops_at_main(ev) == FALSE   \* an alias of an attached symbol is also reported unreferenced (walk stops at the main symbol)
-KF_C17_public_set(ev)         == FALSE   \* the corpus' public symbols differ from the ELF table (a C18/C28 deviation seen through C17)
+KF_C17_public_set(ev)         == FALSE   \* the corpus' public symbols differ from the ELF table (a C18 deviation seen through C17)
+KF_C28_nokernel_corpus(ev)    == FALSE   \* --no-linux-kernel-mode: the corpus' symbols are still only the ksymtab-marked ones
 (* ------------------------------------------------------------------------------------------------ *)
 
 ToSet(s) == {s[i] : i \in 1..Len(s)}
@@ -49,7 +50,11 @@ KindVerdict(ev, k, sect, rws, c) ==
       attached == {s \in pub : s \in dsyms \/ \E cl \in E.classes : s \in cl /\ cl \cap dsyms # {}}
       diIds    == {S!Id(rws[i]) : i \in {j \in X : S!SymRec(rws[j]).sect = sect /\
                                             \E q \in 1..Len(k.di) : k.di[q].name = rws[j].name /\ k.di[q].addr = rws[j].value}}
-  IN IF pub # elfPub
+      XK       == S!ExpectedIdx(rws, S!CodeCtx(c))
+      elfPubK  == {S!Id(rws[i]) : i \in {j \in XK : S!SymRec(rws[j]).sect = sect}}
+  IN IF pub # elfPub /\ c.kernel /\ ~c.kmode /\ pub = elfPubK
+     THEN Kf(KF_C28_nokernel_corpus(ev), "C28-nokernel", sect \o "-no-kernel-mode-ignored:missing=" \o Join(elfPub \ pub))
+     ELSE IF pub # elfPub
      THEN Kf(KF_C17_public_set(ev), "C17-public-set", sect \o "-public-set-differs-from-elf:missing=" \o Join(elfPub \ pub) \o ";unexpected=" \o Join(pub \ elfPub))
      ELSE IF ~(dsyms \subseteq pub) THEN "bad:" \o sect \o "-decl-symbol-not-public:" \o Join(dsyms \ pub)
      ELSE IF attached \cap unref # {}
@@ -62,8 +67,12 @@ KindVerdict(ev, k, sect, rws, c) ==
      ELSE "ok"
 
 Verdict(ev) ==
-  IF ev.ret # "ok" THEN "bad:run-" \o ev.ret
-  ELSE IF Tbl(ev) = "none" THEN "bad:no-symbol-table"
+  IF Tbl(ev) = "none" THEN "bad:no-symbol-table"
+  ELSE IF ev.ret = "nocorpus" /\ S!ExpectedIdx(R(ev), C(ev)) = {} /\ ev.fn.di = <<>> /\ ev.var.di = <<>>
+  THEN "ok"        \* no public symbol and no debug info: read_corpus_from_elf returns no corpus; nothing was to be accounted for
+  ELSE IF ev.ret = "nocorpus" /\ C(ev).kernel /\ ~C(ev).kmode /\ S!ExpectedIdx(R(ev), S!CodeCtx(C(ev))) = {}
+  THEN Kf(KF_C28_nokernel_corpus(ev), "C28-nokernel", "no-kernel-mode-ignored:no-corpus")
+  ELSE IF ev.ret # "ok" THEN "bad:run-" \o ev.ret
   ELSE LET rws == R(ev)
            c   == C(ev)
            vf  == KindVerdict(ev, ev.fn, "fn", rws, c)
